@@ -304,6 +304,42 @@ theorem toAmount_wf (p : PostingAmt κ) : AMap.WF p.toAmount := by
 
 end Amount
 
+/-! ## printed forms -/
+
+/-- the printed form of an amount (or of any map printed through `InlinePrintAmount`'s scheme). -/
+theorem inlineDisplay_meq {le : κ → κ → Bool} (ho : KeyOrder le) (showEntry : κ → ν → String)
+    {a a' : AMap κ ν} (h : a ≈ₘ a') :
+    Okane.Amount.inlineDisplay le showEntry a = Okane.Amount.inlineDisplay le showEntry a' := by
+  by_cases hl : a.length ≤ 1
+  · rw [h.eq_of_short hl]
+  · have hl' : ¬ a'.length ≤ 1 := by rw [← h.length_eq]; exact hl
+    match a, a', hl, hl', h with
+    | x :: y :: r, x' :: y' :: r', _, _, h =>
+      simp only [Okane.Amount.inlineDisplay, h.sortByKey_eq ho]
+    | [], _, h1, _, _ => simp at h1
+    | [_], _, h1, _, _ => simp at h1
+    | _, [], _, h2, _ => simp at h2
+    | _, [_], _, h2, _ => simp at h2
+
+theorem bkErrText_unbalanced_meq {leK : κ → κ → Bool} (hoK : KeyOrder leK) (showEntry : κ → Rat → String)
+    {r r' : Amount κ} (h : r ≈ₘ r') :
+    bkErrText leK showEntry (.unbalanced r) = bkErrText leK showEntry (.unbalanced r') := by
+  have e := inlineDisplay_meq hoK showEntry h
+  show "unbalanced postings: " ++ Okane.Amount.inlineDisplay leK showEntry r =
+    "unbalanced postings: " ++ Okane.Amount.inlineDisplay leK showEntry r'
+  rw [e]
+
+theorem bkErrText_assertion_meq {leK : κ → κ → Bool} (hoK : KeyOrder leK) (showEntry : κ → Rat → String) (i : Nat)
+    {c c' d d' : Amount κ} (hc : c ≈ₘ c') (hd : d ≈ₘ d') :
+    bkErrText leK showEntry (.assertionFailure i c d) = bkErrText leK showEntry (.assertionFailure i c' d') := by
+  have e1 := inlineDisplay_meq hoK showEntry hc
+  have e2 := inlineDisplay_meq hoK showEntry hd
+  show "balance assertion failed at posting " ++ toString i ++ ": computed " ++
+      Okane.Amount.inlineDisplay leK showEntry c ++ " diff " ++ Okane.Amount.inlineDisplay leK showEntry d =
+    "balance assertion failed at posting " ++ toString i ++ ": computed " ++
+      Okane.Amount.inlineDisplay leK showEntry c' ++ " diff " ++ Okane.Amount.inlineDisplay leK showEntry d'
+  rw [e1, e2]
+
 /-! ## evaluated values -/
 
 /-- `Evaluated`: numbers equal, amounts the same map. -/
